@@ -43,6 +43,7 @@ see C02; now no reachable state is a crash: `run_not_crashed`.)
 import YaclibModel.Proofs.PipelineAcct5
 import YaclibModel.Proofs.PipelineSpec
 import YaclibModel.Extracted.Kernels
+import YaclibModel.Extracted.DoneOrder
 import YaclibModel.Model.Skeletons
 import YaclibModel.Proofs.UniqueOwn
 import YaclibModel.Proofs.WhenOwn
@@ -126,6 +127,51 @@ theorem release_conditions (m : Mode) (hd b : Bool) (ty : Nat) :
     Dispatch.doneDecRef ty b true = true ∧ Dispatch.doneDestroysFunctor false = true ∧
     Dispatch.doneDestroysFunctor true = false :=
   ⟨doneDecRef_stepType m hd b, asyncDecRefsCaller_stepType m hd, doneDecRef_async ty b, rfl, rfl⟩
+
+/-! ### ordered teardown of `Core::Done` (T1: `Extracted/DoneOrder.lean` is the statement order of the source)
+
+The functor (with its captures) lives INSIDE the core.  Once the result is published (`SetResult`: the exchange of the
+callback word, running the subscribers of a shared state, dropping the promise references) a consumer may take the result
+and release the core, so everything `Done` releases has to be released BEFORE that statement.  The mechanism model applies
+`doneAcct` / `asyncDoneAcct` as one step and lets the continuation / consumer run after it; the theorems below say that
+this is the order of the code: interpreting the extracted statement list up to the publication gives exactly the model's
+accounting, and nothing is released after it. -/
+section teardown
+open Yaclib.Extracted.DoneOrder
+
+/-- what one statement of `Core::Done<_, async>` releases -/
+def doneStepAcct (ty : Nat) (kAsync async : Bool) (g : G) : DoneStep → G
+  | .releaseCaller => if Dispatch.doneDecRef ty kAsync async then g.freeCore else g
+  | .destroyFunctor => if Dispatch.doneDestroysFunctor async then g.freeFunctor else g
+  | _ => g
+
+/-- the accounting at the moment the result becomes visible: the statements in front of `publish`, in source order -/
+def acctAtPublish (ty : Nat) (kAsync async : Bool) (g : G) : G :=
+  (doneSteps.takeWhile (· != .publish)).foldl (doneStepAcct ty kAsync async) g
+
+/-- the documented order "save caller, store result, release caller, destroy functor, publish" is the order of the source -/
+theorem done_teardown_order :
+    doneSteps = [.saveCaller, .store, .releaseCaller, .destroyFunctor, .publish, .ret] := rfl
+
+/-- **functor_destroyed_before_publish**: at the publication of a core's result its functor is already destroyed and its
+    caller already released — the accounting in front of `SetResult` is the model's whole `doneAcct` (resp. `asyncDoneAcct`
+    for `Done<_, true>`), so whoever observes the result (continuation, subscriber of a shared state, a consumer polling
+    `Ready()` and dropping the future) observes a core whose functor count is released … -/
+theorem functor_destroyed_before_publish (ty : Nat) (kAsync : Bool) (g : G) :
+    acctAtPublish ty kAsync false g = doneAcct ty kAsync g ∧ acctAtPublish ty true true g = asyncDoneAcct ty g ∧
+    (acctAtPublish ty kAsync false g).fFree = g.fFree + 1 := by
+  refine ⟨rfl, rfl, ?_⟩
+  show (doneAcct ty kAsync g).fFree = g.fFree + 1
+  unfold doneAcct
+  rw [doneDestroysFunctor_false]
+  simp only [↓reduceIte, G.freeFunctor]
+  split <;> rfl
+
+/-- … and `Done` touches nothing of the core after the publication: only `return` follows -/
+theorem nothing_released_after_publish :
+    ∀ s ∈ doneSteps.dropWhile (· != .publish), s = .publish ∨ s = .ret := by decide
+
+end teardown
 
 /-! ### non-vacuity: drop points and stop points -/
 
